@@ -49,7 +49,12 @@ func c05Order(c *fw.Case) {
 	if c.Idx < 3*len(c05Floor) {
 		force = c05Floor[c.Idx%len(c05Floor)]
 	}
-	t := gen.RandTable(c.R, gen.TableSpec{Name: "t1", MaxRows: pick(c.Tier, 12, 40), NumCols: 2, StrCols: 2, BoolCols: 1, NullCols: 2, StrStyle: gen.Hostile, PoolSize: 2 + c.Intn(3)})
+	// sort.Slice is an insertion sort up to 12 elements: a share of the tables is larger
+	maxRows := pick(c.Tier, 12, 40)
+	if c.Idx%4 == 3 {
+		maxRows = 40
+	}
+	t := gen.RandTable(c.R, gen.TableSpec{Name: "t1", MaxRows: maxRows, NumCols: 2, StrCols: 2, BoolCols: 1, NullCols: 2, StrStyle: gen.Hostile, PoolSize: 2 + c.Intn(3)})
 	var feats []string
 	// choose keys
 	nk := 1 + c.Intn(3)
